@@ -270,5 +270,15 @@ structure HEnv (σ ρ η κ : Type) where
   onError : σ → κ → σ × κ × Option Panic
   onPanic : σ → κ → σ × κ × Option Panic
 
+/-- the context pool and the dispatcher, as seen by `ServeHTTP` / `HandleContext`: `κ` is the context record.
+    When `handle` ends with a panic the entry point does not reach its `Put` (the panic propagates). -/
+structure PEnv (σ κ : Type) where
+  /-- `r.ctxPool.Get().(*Context)`: some context of the pool (or a new one) and the pool without it -/
+  poolGet : σ → σ × κ
+  /-- `r.ctxPool.Put(ctx)` -/
+  poolPut : σ → κ → σ
+  /-- `r.handleHTTPRequest(ctx)` -/
+  handle : σ → κ → σ × κ × Option Panic
+
 end GoRt
 end Rux
